@@ -272,12 +272,19 @@ def plan(tier):
                         for b in c02.batches(tc, L, P, rpc, reps, size=800):
                             b["cached_from"] = "cli"
                             cases.append(b)
+    # wide lines, narrow column windows (1 or 2 of 16 / 40 columns): still one read per line group
+    for tc in ("IU2", "C*8"):
+        for L, P, rpc in ((4, 16, 2), (4, 16, 4), (5, 40, 3), (6, 16, 1024)):
+            cols = [["i", 0], ["i", P - 1], ["i", P // 2], ["s", 3, 5, None], ["s", 0, 2, None], ["s", P - 2, None, None], ["s", None, None, P // 2], ["a", [1]], ["a", [P - 1, 0]]]
+            rows = [["s", None, None, None], ["s", 0, 2, None], ["s", 1, None, None], ["s", None, None, 2], ["a", [0, L - 1]], ["i", 1]]
+            for b in c02.batches(tc, L, P, rpc, [["isel", r, c] for r in rows for c in cols], size=800):
+                cases.append(b)
     return cases
 
 
 def run(res, tier, seed):
     res.rule = (
-        "rows alphabet of C02 (all ints, slices, int arrays len<=2, masks) x 4 column representatives, plus every pointwise (vectorised) pair" " and triple of lines, x rpc 1..L+1 x L 1..4|6 x both types;"
+        "rows alphabet of C02 (all ints, slices, int arrays len<=2, masks) x 4 column representatives, plus every pointwise (vectorised) pair" " and triple of lines, x rpc 1..L+1 x L 1..4|6 x both types; narrow column windows of 16- and 40-pixel lines;"
         " each load's mcfs:// event log is checked against byte spans computed by independent arithmetic; the same bounds for loads from deep copies / pickle round trips of the lazy object; plus one"
         " open_alos2 metadata-pass log per (type, L, P, rpc); plus the same loads on an image opened through an index cache that was"
         " written and first used with a different rpc (groups are those of the *requested* rpc), and through an index written by the command line tool elsewhere and deployed next to the image (every selection = first load of a fresh copy); plus 20 selections on realistically sized"
